@@ -673,6 +673,51 @@ class NodeTr:
             self.err("statement form %s not translatable: %s" % (type(s).__name__, ast.unparse(s).split("\n")[0]), s)
         return m(s, rest, env, ind)
 
+    def st_FunctionDef(self, s, rest, env, ind):
+        """a local helper defined inside the method (a closure over the method's locals): inlined where it is called
+        as a statement"""
+        a = s.args
+        if s.decorator_list or a.defaults or a.kw_defaults or a.vararg or a.kwarg or a.kwonlyargs or a.posonlyargs:
+            self.err("local function %s: only plain positional parameters are supported" % s.name, s)
+        for n in ast.walk(s):
+            if isinstance(n, (ast.Return, ast.Nonlocal, ast.Global, ast.Yield, ast.YieldFrom, ast.Await)) \
+                    or (isinstance(n, (ast.FunctionDef, ast.Lambda)) and n is not s):
+                self.err("local function %s contains %s" % (s.name, type(n).__name__), s)
+        if not hasattr(self, "local_defs"):
+            self.local_defs = {}
+        self.local_defs[s.name] = s
+        return [self.src(s, ind).split("\n")[0]] + self.go(rest, env, ind)
+
+    def inline_local(self, call, rest, env, ind, node):
+        fn = self.local_defs[call.func.id]
+        name = "<local> " + fn.name
+        if name in self.inlining:
+            self.err("recursive local function %s" % fn.name, node)
+        params = [a.arg for a in fn.args.args]
+        if len(call.args) != len(params) or call.keywords:
+            self.err("call of local function %s" % fn.name, node)
+        binds = []
+        env2 = dict(env)                    # a closure reads the enclosing locals as they are at the time of the call
+        for p_, a_ in zip(params, call.args):
+            env2[p_] = self.ex(a_, env, binds)
+        for n in ast.walk(fn):
+            # a plain assignment inside the closure creates a local of the closure; shadowing an enclosing name would
+            # need care, so it is refused
+            if isinstance(n, (ast.Assign, ast.AugAssign, ast.For)):
+                tg = n.targets if isinstance(n, ast.Assign) else [n.target]
+                for t in tg:
+                    for nm in ast.walk(t):
+                        if isinstance(nm, ast.Name) and nm.id in env and nm.id not in params:
+                            self.err("local function %s assigns the enclosing name %s" % (fn.name, nm.id), node)
+        out = [self.src(node, ind)] + self.emit_binds(binds, ind)
+        out.append("%s(* ---- inlined: local def %s(%s) *)" % (ind, fn.name, ", ".join(params)))
+        self.inlining.append(name)
+        marker = ast.Pass()
+        marker._end_inline = (fn.name, env)
+        res = out + self.go(list(fn.body) + [marker] + rest, env2, ind)
+        self.inlining.pop()
+        return res
+
     def st_Pass(self, s, rest, env, ind):
         if hasattr(s, "_end_inline"):
             name, saved = s._end_inline
@@ -691,6 +736,8 @@ class NodeTr:
             v = v.value
         if isinstance(v, ast.Call) and self.self_attr(v.func) in self.sc.get("helpers", {}):
             return self.inline_helper(v, rest, env, ind, s)
+        if isinstance(v, ast.Call) and isinstance(v.func, ast.Name) and v.func.id in getattr(self, "local_defs", {}):
+            return self.inline_local(v, rest, env, ind, s)
         if isinstance(v, ast.Call) and isinstance(v.func, ast.Attribute) and isinstance(v.func.value, ast.Name) \
                 and v.func.value.id in env and env[v.func.value.id][1] in ("aw", "nil") and v.func.attr in ("extend", "append"):
             # L.extend(self._emit(..)) on the list of awaitables that is returned: only the argument matters
@@ -941,6 +988,14 @@ class NodeTr:
                 ty = op.args[1]
             if [tyk, ty] != op.args:
                 self.err("self.%s[<%s>] = <%s>" % (owner, tyk, ty), node)
+            # a local bound earlier to this entry (`buf = self.<owner>[key]`) names the OLD container object from now on:
+            # read it out before the entry is rebound
+            for name_, (term_, ty_) in list(env.items()):
+                if isinstance(ty_, tuple) and ty_[0] == "alias" and term_[0] == owner:
+                    if term_[1] != tk:
+                        self.err("self.%s[%s] is rebound while the local %s names self.%s[%s]" % (owner, tk, name_, owner, term_[1]), node)
+                    v = self.bind(binds, "rd (%s %s)" % (self.opname(owner, "getitem"), tk), False)
+                    env[name_] = (v, ty_[1])
             self.stateful = True
             return self.emit_binds(binds, ind) + ["%sdo _ <- wr (%s %s %s) ;;" % (ind, self.opname(owner, "setitem"), tk, term)]
         self.err("assignment target %s" % ast.unparse(tgt), node)
